@@ -216,6 +216,13 @@ def run_txn(cfg, plan=None, silence=None, fate=None, horizon=None):
                                 segmentationSupported=c["s_seg"], vendorID=999)
         iam.pduSource = L.Address(2)
         cli.app.deviceInfoCache.iam_device_info(iam)
+    if c.get("know_at") is not None:
+        # ... or processes it while the transaction is already under way (the I-Am arrives between a transmission and its retry)
+        def _learn():
+            iam = L.apdu.IAmRequest(iAmDeviceIdentifier=("device", 2), maxAPDULengthAccepted=c["s_apdu"], segmentationSupported=c["s_seg"], vendorID=999)
+            iam.pduSource = L.Address(2)
+            cli.app.deviceInfoCache.iam_device_info(iam)
+        L.task.FunctionTask(_learn).install_task(when=float(c["know_at"]))
     reqs = [make_request(L, c["req_len"], 2) for _ in range(c["nreq"])]
     req = reqs[0]
     submit_error = None
